@@ -1222,28 +1222,56 @@ def check_any_get(ctx, tu, R5):
                 ctx.ok(R5, inst, 'typed access only on paths where is<T>() is true; every other path throws std::runtime_error', tu.fn_loc(f))
         elif name == 'is':
             n += 1
-            g = tu.cfg(f)
             inst = '%s %s' % (f['q'].replace('rkcommon::utility::', ''), f.get('targs'))
-            calls = [tu.sd(nn).get('q', '') for b, i, nn in g.stmts() if nn.get('kind') in ('CXXMemberCallExpr', 'CallExpr')]
-            has_valid = ANY + '::valid' in calls
+            # statements of is<T>() and of the Any helpers it delegates to (the queried type may travel as a type_info argument)
+            stmts = []
+            seen = {f['id']}
+            work = [f]
+            while work:
+                cur = work.pop()
+                gg = tu.cfg(cur)
+                if gg is None:
+                    continue
+                for b, i2, nn in gg.stmts():
+                    stmts.append(nn)
+                    if nn.get('kind') in ('CXXMemberCallExpr', 'CallExpr'):
+                        cf = tu.callee_fn(nn)
+                        if cf is not None and cf.get('rec') == ANY and cf['id'] not in seen and len(seen) < 6 and \
+                                cf['q'].split('::')[-1] not in ('valid',):
+                            seen.add(cf['id'])
+                            work.append(cf)
+            calls = [tu.sd(nn).get('q', '') for nn in stmts if nn.get('kind') in ('CXXMemberCallExpr', 'CallExpr', 'CXXOperatorCallExpr')]
+            has_valid = ANY + '::valid' in calls or any(
+                nn.get('kind') == 'MemberExpr' and nn.get('name') in [fl['name'] for fl in tu.records.get(f['recid'], {}).get('fields', [])]
+                and (tu.par(nn) or {}).get('kind') in ('ImplicitCastExpr', 'CXXMemberCallExpr', 'UnaryOperator') for nn in stmts)
             has_cmp = any(c in ('strcmp', 'std::type_info::operator==', 'std::type_info::hash_code') or c.endswith('type_info::operator==') for c in calls)
-            has_typeid = any(nn.get('kind') == 'CXXTypeidExpr' for b, i, nn in g.stmts())
+            has_typeid = any(nn.get('kind') == 'CXXTypeidExpr' for nn in stmts)
             has_holder_type = any(c.endswith('handle_base::valueTypeID') for c in calls)
-            # the comparison must be `== 0` for strcmp
-            cmp_ok = True
-            for b, i, nn in g.stmts():
+            wrong = None
+            for nn in stmts:
                 if nn.get('kind') == 'BinaryOperator' and nn.get('opcode') in ('==', '!=', '<', '>', '<=', '>='):
                     ks = tu.kids(nn)
-                    a, b2 = tu.strip(ks[0]), tu.strip(ks[1])
-                    if a.get('kind') == 'CallExpr' and tu.sd(a).get('q') == 'strcmp':
+                    a, b2 = tu.strip(ks[0], casts=True), tu.strip(ks[1], casts=True)
+                    if a is not None and a.get('kind') == 'CallExpr' and tu.sd(a).get('q') == 'strcmp':
                         if nn.get('opcode') != '==' or tu.sd(b2).get('cv') != '0':
-                            cmp_ok = False
-            if has_valid and has_cmp and has_typeid and has_holder_type and cmp_ok:
-                ctx.ok(R5, inst, 'valid() && exact comparison of typeid(T) with the holder type', tu.fn_loc(f))
-            else:
-                ctx.violation(R5, inst, 'is<T>() is not `valid() && typeid(T) equals the stored type` (valid:%s compare:%s typeid:%s holder:%s ==0:%s)'
-                              % (has_valid, has_cmp, has_typeid, has_holder_type, cmp_ok), tu.fn_loc(f),
+                            wrong = 'the result of strcmp is tested with `%s %s`, not `== 0`' % (nn.get('opcode'), tu.show(b2)[:10])
+                    # identity of type_info objects instead of equality of the types
+                    def is_ti_addr(x):
+                        return x is not None and x.get('kind') == 'UnaryOperator' and x.get('opcode') == '&' and \
+                            'type_info' in (tu.sd(tu.strip(tu.kids(x)[0], casts=True) or {}).get('ct', '') +
+                                            (tu.strip(tu.kids(x)[0], casts=True) or {}).get('type', {}).get('qualType', ''))
+                    if nn.get('opcode') in ('==', '!=') and is_ti_addr(a) and is_ti_addr(b2):
+                        wrong = ('the addresses of two std::type_info objects are compared: the same type can have several type_info objects '
+                                 '(one per shared object), so equal types compare unequal')
+            if wrong:
+                ctx.violation(R5, inst, 'is<T>() does not test equality of typeid(T) with the stored type: %s' % wrong, tu.fn_loc(f),
                               key='%s|%s|Any::is|shape' % (R5, tu.fn_file(f)))
+            elif has_valid and has_cmp and has_typeid and has_holder_type:
+                ctx.ok(R5, inst, 'valid() && exact comparison of typeid(T) with the holder type%s' % (
+                    ' (through %d helper(s))' % (len(seen) - 1) if len(seen) > 1 else ''), tu.fn_loc(f))
+            else:
+                ctx.undecided(R5, inst, 'is<T>() is not recognised as `valid() && typeid(T) equals the stored type` (valid:%s compare:%s typeid:%s '
+                              'holder:%s)' % (has_valid, has_cmp, has_typeid, has_holder_type), tu.fn_loc(f))
     ctx.floor(R5, n, 4, 'get<T>/is<T> instantiations in drivers/wrappers.cpp')
 
 
